@@ -363,7 +363,7 @@ int main(int argc, char** argv) {
 		else if (a == "--run-seed") o.one_seed = strtoull(nxt().c_str(), nullptr, 10); else if (a == "--run-index") g_run_index = strtoull(nxt().c_str(), nullptr, 10); else if (a == "--quiet") o.print_plan = false, o.no_shrink = true;
 		else if (a[0] != '-') o.file = a;
 	}
-	simheap::map_arena();
+	if (!getenv("VSIM_PASSTHROUGH")) simheap::map_arena();
 	load_known_findings(o.known);
 	signal(SIGPIPE, SIG_IGN);
 	if (o.cmd == "run") return cmd_run(o);
